@@ -325,6 +325,61 @@ def canon_rv(s):
     return int(s, 16)
 
 
+def wrong_key_case(ops, real, j, model):
+    """Call j reads (getattr, copy) or matches (findinit) the byte strings of a private object through a session of ANOTHER token
+    (known finding F23: object handles are not tied to the session's token).  The library then decrypts with the wrong token
+    key: that fails at the padding check in about 255 of 256 cases (CKR_GENERAL_ERROR, which is what the model says) and
+    otherwise yields garbage of some length (CKR_OK / CKR_BUFFER_TOO_SMALL).  The outcome depends on the random key and IV,
+    not on the call history, so a disagreement on exactly such a call is not a difference between model and code."""
+    w = ops[j].split()
+    if w[0] not in ('getattr', 'copy', 'findinit') or model.get('rv') != 5:
+        return False
+    sess_tok, obj_tok, raw = {}, {}, {}
+
+    def nm(a):
+        if a.startswith('#'):
+            try:
+                return raw.get(int(a[1:], 0), a)
+            except ValueError:
+                return a
+        return a
+    for i in range(j):
+        u = ops[i].split()
+        r = real[i] if i < len(real) else {}
+        if u[0] in ('fini', 'newproc', 'restart'):
+            sess_tok, raw = {}, {}
+        if r.get('rv') != '0x0':
+            continue
+        if 'h' in r and 'raw' in r:
+            try:
+                raw[int(r['raw'])] = r['h']
+            except ValueError:
+                pass
+        if u[0] == 'open' and 'h' in r:
+            sess_tok[r['h']] = u[1]
+        elif u[0] in ('create', 'copy') and 'h' in r and len(u) > 1:
+            t = sess_tok.get(nm(u[1]))
+            if t is not None:
+                obj_tok[r['h']] = t
+        elif u[0] in ('find', 'findseq') and len(u) > 1:
+            t = sess_tok.get(nm(u[1]))
+            for pr in [x for x in r.get('pairs', '').split(',') if ':' in x]:
+                n_, rv_ = pr.split(':', 1)
+                try:
+                    raw[int(rv_)] = n_
+                except ValueError:
+                    pass
+                if t is not None:
+                    obj_tok.setdefault(n_, t)
+    ts = sess_tok.get(nm(w[1])) if len(w) > 1 else None
+    if ts is None:
+        return False
+    if w[0] in ('getattr', 'copy'):
+        to = obj_tok.get(nm(w[2])) if len(w) > 2 else None
+        return to is not None and to != ts
+    return any(t != ts for t in obj_tok.values())
+
+
 def compare(line, real, model):
     """-> None if they agree, else a description"""
     w = line.split()
